@@ -184,7 +184,13 @@ def case_scale_product_underflow_f16():
     return None if err < 4 * 2.0 ** -11 else f"float16 linear: the product of the activation and weight scales underflows into the subnormal range (relative error {err:.3g})"
 
 
+def case_f8xf8_f16_overflow():
+    import witnesses07
+    return "float8 x float8 linear in float16 overflows before scaling" if witnesses07.case_f8xf8_f16_overflow() else None
+
+
 CASES = {
+    "f8xf8-f16-overflow": case_f8xf8_f16_overflow,
     "neg-int8-code-minus-128-wraps": case_neg_code_minus_128,
     "t-on-1d-raises": case_t_1d,
     "copy_-plain-source-raises": case_copy_plain_source,
